@@ -3,13 +3,13 @@
   the definitions REGENERATED from common/reedsolomon/*.go on every run (`Gzx.Gen.K04b`) through the kernel theorems of
   Obligations/K04b*.lean: the field operations of the source are the arithmetic of GF(2)[x]/(prim), and `Encode` as written
   in the source keeps the data, appends exactly `r` parity symbols and produces a word with zero syndromes.
-  (The decoder's four functions are tied by evaluation on samples only — Obligations/K04bDec.lean — so `rs_corrects` is not
-  restated here.)
+  `Decode` as written in the source restores every code word corrupted in at most ⌊r/2⌋ positions (`rs_corrects`).
 -/
-import Gzx.Obligations.K04bEnc
+import Gzx.Obligations.K04bDecode
 import Gzx.Properties.C04
 namespace Gzx.Obligations.K04bProps
-open Gzx Gzx.GF Gzx.RS Gzx.Ref.GF Gzx.K04bTie Gzx.Obligations.K04b Gzx.Obligations.K04bEnc Gzx.Properties.C04
+open Gzx Gzx.GF Gzx.RS Gzx.Ref.GF Gzx.K04bTie Gzx.Obligations.K04b Gzx.Obligations.K04bEnc Gzx.Obligations.K04bDecode
+  Gzx.Properties.C04 Gzx.Proofs.RS
 
 /-- a fresh encoder (`NewReedSolomonEncoder`: cache `[1]`) holds generators only -/
 theorem cacheOK_fresh (F : GF) : CacheOK F [[1]] := by
@@ -61,7 +61,38 @@ theorem gen_encode_zero_syndromes (F : GF) (h : FieldOK F) (data : List Nat) (r 
   obtain ⟨cache', _, hg⟩ := this
   exact ⟨w, cache', hg, h2, h3, h4⟩
 
-/-! non-vacuity: the hypotheses hold for the QR field and a (10,4) block -/
+theorem decodeD_of_decode {F : GF} {w c : List Nat} {r : Nat} (h : decode F w r = .ok c) : decodeD F w r = .ok c := by
+  unfold decode at h
+  cases hd : decodeD F w r with
+  | ok v => rw [hd] at h; cases h; rfl
+  | error e => rw [hd] at h; cases h
+
+when_kernel Gzx.Gen.K04b.decDecode in
+/-- **the regenerated `ReedSolomonDecoder.Decode` corrects up to ⌊r/2⌋ errors**: `c` any code word (zero syndromes) of
+    length `n ≤ size-1` over a field with generator base 0 or 1, `e` any error word with at most `⌊r/2⌋` non-zero symbols:
+    `Decode(c + e, r)` as written in the source returns `nil` and leaves exactly `c` in the slice -/
+theorem gen_corrects (F : GF) (h : FieldOK F) (hb : F.base ≤ 1) (c e : List Nat) (r : Nat)
+    (hlen : e.length = c.length) (hn : c.length ≤ F.size - 1) (hc : InField F c) (he : InField F e)
+    (hz : ZeroSyndromes F c r) (hne : c ≠ []) (hrb : r + F.base ≤ F.size) (hwt : 2 * Gzx.Proofs.MinDist.weight e ≤ r)
+    (fuel : Nat) (hfuel : r + 3 ≤ fuel) :
+    Gen.K04b.decDecode fuel (fieldRec F) (ints (List.zipWith (· ^^^ ·) c e)) r = .ok (false, ints c) := by
+  have hd := decodeD_of_decode (rs_corrects F h hb c e r hlen hn hc he hz hne hrb hwt)
+  have := k_decDecode_eq F (tablesOK_of_fieldOK F h) (List.zipWith (· ^^^ ·) c e) r fuel hfuel (by rw [hd]; intro h; cases h)
+  rw [hd] at this
+  exact this
+
+when_kernel Gzx.Gen.K04b.decDecode in
+/-- … and passes an uncorrupted word through unchanged -/
+theorem gen_decode_clean (F : GF) (h : FieldOK F) (w : List Nat) (r : Nat) (hne : w ≠ []) (hw : InField F w)
+    (hb : r + F.base ≤ F.size) (hz : ZeroSyndromes F w r) (fuel : Nat) (hfuel : r + 3 ≤ fuel) :
+    Gen.K04b.decDecode fuel (fieldRec F) (ints w) r = .ok (false, ints w) := by
+  have hd := decodeD_of_decode (rs_decode_clean F h w r hne hw hb hz)
+  have := k_decDecode_eq F (tablesOK_of_fieldOK F h) w r fuel hfuel (by rw [hd]; intro h; cases h)
+  rw [hd] at this
+  exact this
+
+/-! non-vacuity: the hypotheses hold for the QR field and a (10,4) block; for `gen_corrects`: Properties/C04.lean
+    (`rs_corrects`: a GF(16) code word with r = 4 and an error word of weight 2) -/
 example : FieldOK qrCode256 := fieldOK_mk' (by decide +kernel)
 example : InField qrCode256 [32, 91, 11, 120] := by
   intro x hx; simp at hx; rcases hx with h | h | h | h <;> subst h <;> decide
